@@ -7,9 +7,12 @@
 (* predictor order).  C01 / C02 / C04 / C17 all hinge on these agreeing.   *)
 (* `Defects` re-enables the pinned tree's behaviours.                      *)
 (***************************************************************************)
-EXTENDS Integers, Sequences, FiniteSets, TLC
+EXTENDS Integers, Sequences, SequencesExt, FiniteSets, TLC
 
-CONSTANTS MaxBs, MaxOrder, MaxPoOpt, MaxPartitions, Defects
+CONSTANTS MaxBs, MaxOrder, MaxPoOpt, MaxPartitions, Defects,
+          BigBs       \* further block sizes beyond 1..MaxBs (the sizes at which partition orders 9..15 are legal)
+
+BlockSizes == (1..MaxBs) \cup BigBs
 
 Min2(a, b) == IF a < b THEN a ELSE b
 IsPow2(n) == n > 0 /\ \E k \in 0..16 : n = 2^k
@@ -49,16 +52,15 @@ DecLayout(bs, po, order) ==
 
 \* every encoder candidate is a layout the decoders and the RFC derive
 Agree ==
-    \A bs \in 1..MaxBs, order \in 0..MaxOrder, maxpo \in 0..MaxPoOpt :
+    \A bs \in BlockSizes, order \in 0..MaxOrder, maxpo \in 0..MaxPoOpt :
         order < bs =>
            /\ ~EncPanics(bs, order, maxpo)
            /\ \A c \in EncCandidates(bs, order, maxpo) :
                 LET po == Log2(Len(c)) IN c = DecLayout(bs, po, order) /\ c = RfcLayout(bs, po, order)
 \* the decoder never panics, and a layout it accepts has exactly 2^po parts covering the block
-RECURSIVE SumSeq(_)
-SumSeq(q) == IF q = <<>> THEN 0 ELSE Head(q) + SumSeq(Tail(q))
+SumSeq(q) == FoldLeft(LAMBDA a, b : a + b, 0, q)
 DecoderSound ==
-    \A bs \in 1..MaxBs, order \in 0..MaxOrder, po \in 0..15 :
+    \A bs \in BlockSizes, order \in 0..MaxOrder, po \in 0..15 :
         order <= bs =>
            LET d == DecLayout(bs, po, order) IN
            /\ d # <<-1>>
@@ -67,6 +69,6 @@ DecoderSound ==
 \* divide the block size but divides block size - order the decoder accepts, e.g. bs = 7,
 \* po = 1, order = 1.  Evaluated and reported as a note; C05 judges the real decoder.)
 DecoderStrict ==
-    \A bs \in 1..MaxBs, order \in 0..MaxOrder, po \in 0..15 :
+    \A bs \in BlockSizes, order \in 0..MaxOrder, po \in 0..15 :
         (order <= bs /\ DecLayout(bs, po, order) \notin {<<>>, <<-1>>}) => DecLayout(bs, po, order) = RfcLayout(bs, po, order)
 =======================================================================
